@@ -168,7 +168,7 @@ static void judge_noescape(int k) {
     j = c18_salt;
     for (i = 0; i < (unsigned)p->len; i++) {
         j = (j * 5u + 3u) % (unsigned)p->len;
-        h = h * 31u + m[j & 15];
+        h = h * 31u + ((int)j == p->nulpos ? 0u : m[j & 15]); /* a short string: the victim stored a NUL at nulpos before reading */
     }
     ne_used[k] = (h == c18_sink);
     for (pos = 0; pos < SCAN;) {
